@@ -80,12 +80,15 @@ var fnVars = map[string]any{
 	"title": "Hello", "type": "post", "default": "fb", "lower": "",
 	"len": 3, "string": 12, "int": 0,
 	"json": []int{4, 5, 6}, "file": []string{"p", "q"},
+	// named like built-ins of the expression library (which are functions only where called)
+	"first": true, "last": false, "max": 9, "min": 0, "abs": 2, "keys": []string{"k1", "k2"}, "values": "vals", "filter": "flt",
 }
 
 var (
-	fnIntPaths    = []string{"len", "string", "int", "json[0]", "json[2]"}
-	fnStringPaths = []string{"title", "type", "default", "lower", "file[1]"}
-	fnListPaths   = []string{"json", "file"}
+	fnIntPaths    = []string{"len", "string", "int", "json[0]", "json[2]", "max", "min", "abs"}
+	fnStringPaths = []string{"title", "type", "default", "lower", "file[1]", "values", "filter", "keys[0]"}
+	fnListPaths   = []string{"json", "file", "keys"}
+	fnBoolPaths   = []string{"first", "last"}
 )
 
 // envOf builds environment id. Every environment has the same shape and the same static
@@ -145,6 +148,10 @@ func envOf0(id int) map[string]any {
 			"inner": map[string]any{"x": r.x, "s": r.deep},
 			// hyphenated keys (only vuego's own path walker reads m.first-name as a path)
 			"first-name": r.who, "item-count": r.z + r.k, "sub-map": map[string]any{"deep-key": r.deep, "n": r.inx}},
+		// map keys that need a quoted bracket step: form-field style names, dots, blanks, quotes
+		"errs": map[string]any{"user[email]": r.name, "tags[]": r.deep, "a.b": r.s, "two words": r.who, "it's": r.h, `say "hi"`: "q" + r.num, "[": r.e, "]": "close",
+			"item[0][id]": r.k, "ok[]": r.ok,
+			"sub[x]": map[string]any{"n": r.x, "s": r.deep, "k.e-y": r.who}},
 		// hyphenated root names (docs/components.md: {{ cta-text }}), truthy and falsy
 		"cta-text": r.name, "zero-count": r.inx, "empty-label": r.deep, "is-on": r.adm,
 		"rows": []map[string]any{{"b-c": r.who, "id": r.uage}, {"b-c": r.deep, "id": r.inx}},
@@ -160,12 +167,13 @@ func envOf0(id int) map[string]any {
 
 // typed catalogue of the paths (the static type of each is the same in every environment)
 var (
-	intPaths    = []string{"a", "b", "z", "n", "m.k", `m["k"]`, `m['k']`, "m.inner.x", `m["inner"].x`, "xs[0]", "xs[2]", "st.Age", "st.In.X", "us[0].age", "us[1].age", "rs[0].Age"}
+	intPaths    = []string{"a", "b", "z", "n", "m.k", `m["k"]`, `m['k']`, "m.inner.x", `m["inner"].x`, "xs[0]", "xs[2]", "st.Age", "st.In.X", "us[0].age", "us[1].age", "rs[0].Age", `errs['item[0][id]']`, `errs["item[0][id]"]`, `errs['sub[x]'].n`, `errs["sub[x]"]["n"]`}
 	floatPaths  = []string{"f", "g", "zf", "m.rate", `m['rate']`, "fs[0]", "fs[1]", "st.Score", "rs[0].Score"}
-	stringPaths = []string{"s", "h", "e", "num", "m.name", `m["name"]`, `m['name']`, "m.inner.s", "ss[0]", "ss[1]", "st.Name", "st.In.S", "us[0].name", "us[1].name", "rs[0].Name", "sp", "sp2", "spl", "spt"}
-	boolPaths   = []string{"t", "u", "off", "m.ok", `m["ok"]`, "bs[0]", "bs[1]", "st.Ok", "us[0].admin", "us[1].admin", "rs[0].Ok"}
-	listPaths   = []string{"xs", "ss", "fs", "bs"}
-	mapPaths    = []string{"m", "m.inner", "us[0]"}
+	stringPaths = []string{"s", "h", "e", "num", "m.name", `m["name"]`, `m['name']`, "m.inner.s", "ss[0]", "ss[1]", "st.Name", "st.In.S", "us[0].name", "us[1].name", "rs[0].Name", "sp", "sp2", "spl", "spt",
+		`errs['user[email]']`, `errs["user[email]"]`, `errs['tags[]']`, `errs["tags[]"]`, `errs['a.b']`, `errs["a.b"]`, `errs['two words']`, `errs["it's"]`, `errs['say "hi"']`, `errs['[']`, `errs["]"]`, `errs['sub[x]'].s`, `errs["sub[x]"]['k.e-y']`, `errs['sub[x]']["s"]`}
+	boolPaths = []string{"t", "u", "off", "m.ok", `m["ok"]`, "bs[0]", "bs[1]", "st.Ok", "us[0].admin", "us[1].admin", "rs[0].Ok", `errs['ok[]']`, `errs["ok[]"]`}
+	listPaths = []string{"xs", "ss", "fs", "bs"}
+	mapPaths  = []string{"m", "m.inner", "us[0]", `errs['sub[x]']`, `errs["sub[x]"]`}
 	// never zero in any environment (divisors)
 	nonzeroIntPaths   = []string{"a", "b", "n", "m.inner.x", "us[1].age"}
 	nonzeroFloatPaths = []string{"f", "g"}
@@ -192,15 +200,21 @@ func resolve(env map[string]any, path string) (any, bool) {
 			i++
 			steps = append(steps, id())
 		case '[':
+			if i+1 < len(path) && (path[i+1] == '"' || path[i+1] == '\'') {
+				// quoted key: everything up to the closing quote, verbatim (it may contain ] [ . and blanks)
+				k := strings.IndexByte(path[i+2:], path[i+1])
+				if k < 0 || i+2+k+1 >= len(path) || path[i+2+k+1] != ']' {
+					return nil, false
+				}
+				steps = append(steps, path[i+2:i+2+k])
+				i += 2 + k + 2
+				continue
+			}
 			j := strings.IndexByte(path[i:], ']')
 			if j < 0 {
 				return nil, false
 			}
-			in := path[i+1 : i+j]
-			if len(in) >= 2 && (in[0] == '"' || in[0] == '\'') {
-				in = in[1 : len(in)-1]
-			}
-			steps = append(steps, in)
+			steps = append(steps, path[i+1:i+j])
 			i += j + 1
 		default:
 			return nil, false
